@@ -1,5 +1,5 @@
 From Coq Require Import List NArith Bool.
-From LTV.C17 Require Import Model Proofs ProofsA ProofsB ProofsC ProofsD ProofsE ProofsF ProofsG ProofsH ProofsI.
+From LTV.C17 Require Import Model Proofs ProofsA ProofsB ProofsC ProofsD ProofsE ProofsF ProofsG ProofsH ProofsI ProofsJ ProofsK.
 Import ListNotations.
 
 (* Conventions: all theorems quantify over ALL client programs [progs], callback bodies [bds], id counts and
@@ -159,22 +159,29 @@ Theorem fifo_per_kind_partial :
 Proof. split. exact ProofsE.push_appends. exact ProofsE.dispatch_takes_queue_in_order. Qed.
 Print Assumptions fifo_per_kind_partial.
 
-(* FIRST_PUSH_INTERRUPTS - PARTIAL: proved: should_interrupt is true exactly when the queue of that kind
-   was empty; the step function then schedules IPostIntr before the post returns (Model.step, cases
-   IPostSub si=true / id-less first=true). MISSING: the trace-level statement; exercised by the oracle
-   class "first-push-interrupt" and by label equality (cb_interrupt appears iff should_interrupt). *)
-Theorem first_push_interrupts_partial : forall b k e,
+(* FIRST_PUSH_INTERRUPTS (trace level, ALL programs and schedules, any number of threads): a post that pushed into an
+   empty queue of its kind ([EvPushed u tgt k true]) and has returned ([EvPostRet u]) has called Poll::do_interrupt on
+   the target before returning ([EvIntr u tgt]). (What do_interrupt does to a polling target is Model.set_intr; that the
+   target then does not sleep is poll_never_full_with_queued.) *)
+Theorem first_push_interrupts : forall progs nids bds c u tgt k,
+  reachable (init progs nids bds) c -> crashed c = false ->
+  In (EvPushed u tgt k true) (log c) -> In (EvPostRet u) (log c) -> In (EvIntr u tgt) (log c).
+Proof. exact ProofsK.first_push_interrupts. Qed.
+Print Assumptions first_push_interrupts.
+Theorem first_push_iff_queue_empty : forall b k e,
   snd (push_entry b k e) = match k with KNormal => match qn b with [] => true | _ => false end
                                       | KIntr => match qi b with [] => true | _ => false end end.
 Proof. exact ProofsE.push_first_iff_empty. Qed.
-Print Assumptions first_push_interrupts_partial.
+Print Assumptions first_push_iff_queue_empty.
 
-(* POLL ("without waiting for a poll timeout"), normal callbacks: invariant "m_callbacks non-empty => m_has_callbacks"
-   for ALL programs and schedules, hence: when a thread runs Poll::poll's entry step (fetch_or(flag_polling) + timeout
-   decision) while a normal callback is queued for it, it takes the SHORT timeout. PARTIAL for interrupt callbacks:
-   m_has_interrupt_callbacks is cleared without the lock at the start of process_callbacks, so the corresponding
-   invariant carries the exception "unless the owner is between pc_store and pc_lock" (not proved; the owner cannot be
-   in poll there); exercised by the oracle class poll-timeout-wait for both kinds. *)
+(* POLL ("without waiting for a poll timeout"). Invariants for ALL programs and schedules:
+     m_callbacks non-empty            => m_has_callbacks
+     m_interrupt_callbacks non-empty  => m_has_interrupt_callbacks, UNLESS the owner is between the unlocked
+                                         store(false) at the start of process_callbacks (pc_store) and its first
+                                         locked section (pc_lock)  [interrupt_flag_invariant]
+   hence: when a thread runs Poll::poll's entry step (fetch_or(flag_polling) + timeout decision) while ANY callback
+   is queued for it, it takes the SHORT timeout [poll_never_full_with_queued]: the exception cannot coincide with
+   the owner standing at the entry of poll. *)
 Theorem poll_never_full_with_queued_normal : forall progs nids bds c t th b rest c',
   reachable (init progs nids bds) c ->
   nth_error (threads c) t = Some th -> todo th = ICmd PollOnce :: rest -> nth_error (boxes c) t = Some b ->
@@ -182,6 +189,18 @@ Theorem poll_never_full_with_queued_normal : forall progs nids bds c t th b rest
   exists th', nth_error (threads c') t = Some th' /\ todo th' = IPollWait false :: rest.
 Proof. exact ProofsI.poll_never_full_with_queued_normal. Qed.
 Print Assumptions poll_never_full_with_queued_normal.
+Theorem interrupt_flag_invariant : forall progs nids bds c t th b,
+  reachable (init progs nids bds) c -> nth_error (threads c) t = Some th -> nth_error (boxes c) t = Some b ->
+  qi b <> [] -> hasi b = true \/ exists oi r, todo th = IBatch [] oi :: r.
+Proof. exact ProofsJ.interrupt_flag_invariant. Qed.
+Print Assumptions interrupt_flag_invariant.
+Theorem poll_never_full_with_queued : forall progs nids bds c t th b rest c',
+  reachable (init progs nids bds) c ->
+  nth_error (threads c) t = Some th -> todo th = ICmd PollOnce :: rest -> nth_error (boxes c) t = Some b ->
+  qn b <> [] \/ qi b <> [] -> step c t = Some c' ->
+  exists th', nth_error (threads c') t = Some th' /\ todo th' = IPollWait false :: rest.
+Proof. exact ProofsJ.poll_never_full_with_queued. Qed.
+Print Assumptions poll_never_full_with_queued.
 
 (* mutual cancellation through the single-argument form deadlocks (why the two-argument form exists) *)
 Theorem single_arg_mutual_cancel_deadlocks :
